@@ -196,3 +196,13 @@ func ga_Cofactor(p, t *EdwardsPoint) *EdwardsPoint {
 	SetPid(p, v)
 	return p
 }
+
+func GAdd(a, b verif.BV) verif.BV { return verif.UFBV("ed_add", 256, a, b) }
+
+//verif:contract for=(*curve.EdwardsPoint).Add group=gapi
+func ga_PtAdd(p, a, b *EdwardsPoint) *EdwardsPoint {
+	v := GAdd(Pid(a), Pid(b))
+	verif.Havoc(p)
+	SetPid(p, v)
+	return p
+}
